@@ -3,6 +3,7 @@ package main
 // SMT-LIB emission and solver racing.
 
 import (
+	"runtime"
 	"regexp"
 	"bytes"
 	"context"
@@ -476,7 +477,34 @@ func smtDir() string {
 }
 
 // dischargeAll runs the solvers over all obligations with bounded parallelism.
+// loadFactor: how much slower than on an idle machine a solver process can be expected to run right now (the 1-minute
+// load average per core, between 1 and 3). Time limits are wall-clock; a verdict must not depend on what else runs.
+func loadFactor() float64 {
+	b, err := os.ReadFile("/proc/loadavg")
+	if err != nil {
+		return 1
+	}
+	f := strings.Fields(string(b))
+	if len(f) == 0 {
+		return 1
+	}
+	l, err := strconv.ParseFloat(f[0], 64)
+	if err != nil {
+		return 1
+	}
+	r := l / float64(runtime.NumCPU())
+	if r < 1 {
+		return 1
+	}
+	if r > 3 {
+		return 3
+	}
+	return r
+}
+
 func dischargeAll(obls []*Obligation, prelude string, par, quickS, fullS int, keep bool) {
+	baseS := fullS
+	fullS = int(float64(fullS)*loadFactor() + 0.5)
 	sem := make(chan struct{}, par)
 	var wg sync.WaitGroup
 	dir := smtDir()
@@ -493,6 +521,9 @@ func dischargeAll(obls []*Obligation, prelude string, par, quickS, fullS int, ke
 			defer func() { <-sem }()
 			q := o.query(prelude)
 			h := sha1.Sum([]byte(o.Name + q))
+			if os.Getenv("GOVC_STABLE_NAMES") != "" {
+				h = sha1.Sum([]byte(o.Name + o.Func + o.Pos))
+			}
 			file := filepath.Join(dir, fmt.Sprintf("%x.smt2", h[:8]))
 			os.WriteFile(file, []byte(q), 0o644)
 			r := solve(file, quickS, fullS)
@@ -546,4 +577,38 @@ func dischargeAll(obls []*Obligation, prelude string, par, quickS, fullS int, ke
 		}()
 	}
 	rwg.Wait()
+	// last resort before an obligation is reported as not discharged: when only a few are left (a mass failure is
+	// not a scheduling accident), each gets the whole portfolio, two at a time, with four times the limit
+	var left []*Obligation
+	for _, o := range obls {
+		if o.Status == "unsat" || o.Status == "sat" || o.Status == "error" || o.queryFile == "" || o.Cover || o.NoRetry {
+			continue
+		}
+		left = append(left, o)
+	}
+	if len(left) > 0 && len(left) <= 8 {
+		all := append(append([]solverSpec{}, solvers...), retrySolvers...)
+		fsem := make(chan struct{}, 2)
+		var fwg sync.WaitGroup
+		for _, o := range left {
+			o := o
+			fwg.Add(1)
+			fsem <- struct{}{}
+			go func() {
+				defer fwg.Done()
+				defer func() { <-fsem }()
+				r := solveWith(all, o.queryFile, quickS, int(float64(4*baseS)*loadFactor()+0.5))
+				if r.status == "unsat" || r.status == "sat" {
+					o.Status, o.Solver, o.TimeS = r.status, r.solver+" (final)", r.secs
+					if r.status == "sat" {
+						o.Model = r.output
+					}
+					if r.status == "unsat" && !keep {
+						os.Remove(o.queryFile)
+					}
+				}
+			}()
+		}
+		fwg.Wait()
+	}
 }
